@@ -1,10 +1,54 @@
-TECHNIQUE = 'bounded symbolic execution of LLVM IR lowered to C: CBMC/SAT (cadical), sequential harness'
-ASSUMPTIONS = []
-OUTSIDE = ''
-_SRC = ['dispenso/graph.cpp', 'dispenso/graph_executor.cpp', 'dispenso/pool_allocator.cpp']
-INSTANCES = [
-    {'name': 'probe2', 'src': 'probe2.cpp', 'engine': 'cbmc', 'repo_sources': _SRC,
-     'models': ['aligned_alloc'], 'ptrdiff': True, 'intercept': {'_ZN8dispenso14PoolAllocatorTILb0EE5allocEv': 'vf_c30_pool_alloc'}, 'rt_extra': ['harness/C30/pool_model.c'], 'cflags': ['-DDISPENSO_NO_SMALL_BUFFER_ALLOCATOR'],
-     'unwind': 4, 'nthreads': 1, 'timeout': 600, 'tiers': ['quick'],
-     'bounds': '2 nodes'},
+TECHNIQUE = ('bounded symbolic execution of LLVM IR lowered to C: CBMC/SAT (cadical), sequential harness with a '
+             'symbolic DAG shape, ghost run log checked against the edge list')
+ASSUMPTIONS = [
+    'a freshly built graph is armed with setAllNodesIncomplete() before its first execution (what every test, example '
+    'and benchmark of the repo does; the Node constructor leaves the predecessor counter at 0)',
+    'NoLockPoolAllocator::alloc() replaced by its contract (fresh exclusive block of chunkSize_ bytes; the real slab '
+    'carving is the subject of C42)',
+    'detail::alignedMalloc/alignedFree replaced by their contract; DISPENSO_NO_SMALL_BUFFER_ALLOCATOR build '
+    '(functor storage comes from alignedMalloc instead of the small-buffer pools, the subject of C41)',
+    'node functors do not throw and do not touch the graph',
 ]
+OUTSIDE = ('graphs with more than 3 (quick) / 4 (thorough) nodes; node insertion orders in which a node depends on a '
+           'later-added node; ParallelForExecutor and ConcurrentTaskSetExecutor (their lowering drags parallel_for + '
+           'ThreadPool into the already heavy libstdc++ lowering; not encoded); more than one subgraph and '
+           'subgraph clear/rebuild; graph move construction/assignment; functors with captures')
+
+_SRC = ['dispenso/graph.cpp', 'dispenso/graph_executor.cpp', 'dispenso/pool_allocator.cpp']
+_NODE_T = {0: 'struct S_class_dispenso__Node_133c07', 1: 'struct S_class_dispenso__BiPropNode_9f68e0'}
+
+
+def _inst(name, src, nodes, biprop, tiers, unwind, bounds, timeout=900, extra=None):
+    d = {'name': name, 'src': src, 'engine': 'cbmc', 'repo_sources': _SRC,
+         'models': ['aligned_alloc'], 'ptrdiff': True,
+         'intercept': {'_ZN8dispenso14PoolAllocatorTILb0EE5allocEv': 'vf_c30_pool_alloc'},
+         'rt_extra': ['harness/C30/pool_model.c'],
+         'rt_defs': {'VF_C30_NODE_T': _NODE_T[biprop]},
+         'cflags': ['-DDISPENSO_NO_SMALL_BUFFER_ALLOCATOR'],
+         'defs': {'VF_NODES': nodes, 'VF_BIPROP': biprop},
+         'unwind': unwind, 'nthreads': 1, 'timeout': timeout, 'tiers': tiers, 'bounds': bounds}
+    d.update(extra or {})
+    return d
+
+
+_SHAPE_TXT = {0: 'no edges', 1: '0->1', 2: '0->2', 3: 'fan-out 0->1, 0->2', 4: '1->2', 5: 'chain 0->1->2',
+              6: 'fan-in 0->2, 1->2', 7: 'triangle 0->1, 0->2, 1->2'}
+
+
+def _shape(k, tiers, rearm, bshape=None):
+    biprop = 0 if bshape is None else 1
+    name = 'ste3_s%d' % k + ('' if bshape is None else '_b%d' % bshape)
+    return _inst(name, 'ste.cpp', 3, biprop, tiers, 4,
+                 '%s with 3 nodes, shape %d (%s)%s, literal; SingleThreadExecutor: armed run, re-run of the completed '
+                 'graph%s' % ('BiPropGraph' if biprop else 'Graph', k, _SHAPE_TXT[k],
+                              '' if bshape is None else ', BiProp edge mask %d' % bshape,
+                              ', setAllNodesIncomplete + full run' if rearm else ''),
+                 timeout=600,
+                 extra={'defs': {'VF_NODES': 3, 'VF_BIPROP': biprop, 'VF_SHAPE': k, 'VF_BSHAPE': bshape or 0,
+                                 'VF_REARM': rearm}})
+
+
+# quick: the four shapes with two edges or more; thorough: all 8 shapes incl. re-arming, two BiPropGraph shapes
+INSTANCES = ([_shape(k, ['quick'], 0) for k in (3, 5, 6, 7)] +
+             [_shape(k, ['thorough'], 1) for k in range(8)] +
+             [_shape(7, ['thorough'], 1, 5), _shape(6, ['thorough'], 1, 6)])
